@@ -38,6 +38,9 @@ def build(c, n_default):
         return deps.leaf(c[1], c[2])
     if k == "bytes":
         return ("arr", tuple(deps.leaf("%s[%d]" % (c[1], j), "u8") for j in range(c[2])))
+    if k == "text":
+        # a string whose first byte is fixed (a digit, '0', '+' or '-') and whose other bytes are input leaves
+        return ("arr", (deps.conc(c[3], "u8"),) + tuple(deps.leaf("%s[%d]" % (c[1], j), "u8") for j in range(1, c[2])))
     if k == "digs":
         return deps.digits(c[1], c[2], c[3] if len(c) > 3 else None)
     if k == "rng":
@@ -477,6 +480,35 @@ def c10(K, Ns):
                     if L > nbytes:
                         req.append((("discr",), {"s[%d]" % ((L - 1 - b) if be else b) for b in range(nbytes, L)}, "the Some/None decision"))
                     out.append(row(K, "C10", fid, "N%d_r256_L%d" % (n, L), sh, [("bytes", "s", L), ("c", 256, "u32")], req, n))
+            # the string parsers, with the first character fixed (whether there is a sign decides the trip counts of the loops):
+            # every other character can make the text invalid, and digit 0 of the value varies with the characters whose weight
+            # radix^i is neither a multiple of 2^w nor beyond the type
+            sgA = is_signed(A)
+            for r in (10, 16):
+                for L in ((2, 6) if n <= 3 else ()):
+                    for first in ([ord("7") if r > 7 else ord("1"), ord("0"), ord("+")] + ([ord("-")] if sgA else [])):
+                        for fid, with_radix in ((inh(A, "from_str_radix"), True), (tr(A, "core::str::FromStr", [], "from_str"), False)):
+                            if not with_radix and r != 10:
+                                continue
+                            if not exists(K, fid):
+                                continue
+                            var = list(range(1, L))
+                            dbits = db_of(A)
+                            bits_ = n * dbits - (1 if sgA else 0)
+                            sig = [p_ for p_ in var if (r ** (L - 1 - p_)) % (1 << dbits) != 0 and (r ** (L - 1 - p_)) < (1 << bits_)]
+                            fits = True
+                            if first in (ord("7"), ord("1")):
+                                # a leading non-zero digit: the text can only be accepted when its weight alone fits the type; a text
+                                # that is necessarily too long is refused whatever follows (the statement fixes the kind only for
+                                # texts too short to overflow)
+                                fits = (first - 48) * r ** (L - 1) < (1 << bits_)
+                            if not fits:
+                                continue
+                            req = [(("discr",), {"s[%d]" % p_ for p_ in var}, "the Ok/Err decision")]
+                            if sig:
+                                req.append(((("ok",), 0) + dig_path(A) + (0,), {"s[%d]" % p_ for p_ in sig}, "digit 0 of the value"))
+                            conts = [("text", "s", L, first)] + ([("c", r, "u32")] if with_radix else [])
+                            out.append(row(K, "C10", fid, "N%d_r%d_L%d_%s" % (n, r, L, {48: "zero", 43: "plus", 45: "minus"}.get(first, "digit")), sh, conts, req, n))
             for r in (2, 3, 10, 16, 36, 200):
                 for L in (1, 2, 5, 11):
                     for m, be in (("from_radix_be", True), ("from_radix_le", False)):
